@@ -4,6 +4,7 @@ import (
 	"bytes"
 	"fmt"
 	"io"
+	"net/url"
 	"strings"
 	"sync"
 	"time"
@@ -375,6 +376,12 @@ func c07Free(c *Ctx, kind string, nClients, nOps int) {
 	bucket := impl.SingleBucketName
 	inst.EnsureBucket(bucket)
 	keys := []string{"k1", "k2", "d/k3"}[:1+c.Rng.Intn(3)]
+	versioned := kind == "mem" && c.Rng.Intn(2) == 0
+	if versioned {
+		inst.Do(impl.Req{Method: "PUT", Path: "/" + bucket, Query: "versioning", Body: bytes.NewReader([]byte("<VersioningConfiguration><Status>Enabled</Status></VersioningConfiguration>"))})
+	}
+	type ack struct{ key, vid, body string }
+	var acks []ack
 	var mu sync.Mutex
 	var ops []porcupine.Operation
 	var bad []string
@@ -410,6 +417,11 @@ func c07Free(c *Ctx, kind string, nClients, nOps int) {
 					if resp.Panic != "" {
 						mu.Lock()
 						bad = append(bad, "panic in PUT: "+trunc(resp.Panic, 200))
+						mu.Unlock()
+					}
+					if versioned && out.ok {
+						mu.Lock()
+						acks = append(acks, ack{k, resp.Header.Get("X-Amz-Version-Id"), in.body})
 						mu.Unlock()
 					}
 				case x < 9:
@@ -467,6 +479,37 @@ func c07Free(c *Ctx, kind string, nClients, nOps int) {
 		}
 		c.mismatch(Mismatch{Kind: "spec", Backend: kind, Case: []string{fmt.Sprintf("%d free-running clients × %d operations on keys %v (seed-derived programs)", nClients, nOps, keys)}, Impl: b, Spec: "a read returns one whole upload", Finger: fp})
 	}
+	if versioned {
+		// every acknowledged versioned upload got its own id, and that id reads back its bytes
+		seen := map[string]int{}
+		for i, a := range acks {
+			c.R.Evaluations++
+			if a.vid == "" {
+				c.mismatch(Mismatch{Kind: "spec", Backend: kind, Case: []string{fmt.Sprintf("%d free-running clients on a versioned bucket", nClients)}, Impl: "an acknowledged upload without a version id", Spec: "a fresh version id per upload", Finger: "c07:free:version-ids"})
+				break
+			}
+			if j, dup := seen[a.key+"\x00"+a.vid]; dup {
+				c.mismatch(Mismatch{Kind: "spec", Backend: kind, Case: []string{fmt.Sprintf("%d free-running clients × %d operations on a versioned bucket, keys %v", nClients, nOps, keys)},
+					Impl: fmt.Sprintf("uploads #%d and #%d of %s were both given version id %s", j, i, a.key, a.vid), Spec: "distinct version ids", Finger: "c07:free:version-ids"})
+				break
+			}
+			seen[a.key+"\x00"+a.vid] = i
+		}
+		for i, a := range acks {
+			if i%7 != 0 && len(acks) > 200 {
+				continue
+			}
+			resp := inst.Do(impl.Req{Method: "GET", Path: "/" + bucket + "/" + a.key, Query: "versionId=" + url.QueryEscape(a.vid)})
+			c.R.Evaluations++
+			// a later plain DELETE only adds markers, so every uploaded version is still there
+			if resp.Status != 200 || string(resp.Body) != a.body {
+				c.mismatch(Mismatch{Kind: "spec", Backend: kind, Case: []string{fmt.Sprintf("%d free-running clients × %d operations on a versioned bucket, keys %v", nClients, nOps, keys)},
+					Impl: fmt.Sprintf("GET %s?versionId=%s -> %d, %d bytes %q…", a.key, a.vid, resp.Status, len(resp.Body), trunc(string(resp.Body), 16)),
+					Spec: fmt.Sprintf("the %d bytes uploaded under that id (%q…)", len(a.body), trunc(a.body, 16)), Finger: "c07:free:version-readback"})
+				break
+			}
+		}
+	}
 	res := porcupine.CheckOperationsTimeout(regModel, ops, 4*time.Second)
 	if res == porcupine.Illegal {
 		c.mismatch(Mismatch{Kind: "spec", Backend: kind, Case: []string{fmt.Sprintf("%d free-running clients × %d operations on keys %v", nClients, nOps, keys), historyText(ops)}, Impl: "the recorded history is not linearizable", Spec: "consistent with a sequential order respecting real time", Finger: "c07:free:not-linearizable"})
@@ -494,7 +537,7 @@ func runC07(c *Ctx) {
 	if c.Thorough() {
 		nGated, nFree = 600, 60
 	}
-	c.R.Rule = fmt.Sprintf("(A) %d gate-controlled schedules per backend instance: 2–4 client threads with programs of put/get/head/delete/list/upload-part/complete over 1–3 keys; exactly one thread runs at a time, from one lock-free micro-step boundary (after the body is read, after the metadata merge) to the next, the thread to advance drawn from the seed; the Lean model executes the same micro-steps (cbegin/cmerge/ccommit, atomic steps for the rest) in the same order and every answer — body, length, ETag, version id, metadata, listing — must agree, and agree with the reference model that applies each upload at its commit step; (C) CompleteMultipartUpload parked inside the backend's PutObject while part uploads, ListParts and abort on the same upload are started, then released: every request must be answered (lock-order inversions show as requests that never return) and a completed object is the listed part; (B) %d free-running histories per instance with 2–16 clients incl. slow uploaders, checked for linearizability against a per-key register (porcupine) and for body/length/ETag agreement of every read; non-trivial = distinct schedule", nGated, nFree)
+	c.R.Rule = fmt.Sprintf("(A) %d gate-controlled schedules per backend instance: 2–4 client threads with programs of put/get/head/delete/list/upload-part/complete over 1–3 keys; exactly one thread runs at a time, from one lock-free micro-step boundary (after the body is read, after the metadata merge) to the next, the thread to advance drawn from the seed; the Lean model executes the same micro-steps (cbegin/cmerge/ccommit, atomic steps for the rest) in the same order and every answer — body, length, ETag, version id, metadata, listing — must agree, and agree with the reference model that applies each upload at its commit step; (C) CompleteMultipartUpload parked inside the backend's PutObject while part uploads, ListParts and abort on the same upload are started, then released: every request must be answered (lock-order inversions show as requests that never return) and a completed object is the listed part; (D) contention on the memory backend: 16 clients × 1000 Backend-API uploads onto two keys of a versioned bucket, every acknowledged upload with its own version id that reads back exactly its bytes; (B) %d free-running histories per instance with 2–16 clients incl. slow uploaders, checked for linearizability against a per-key register (porcupine), on the memory backend half of them with versioning enabled (every acknowledged upload has its own version id and that id reads back exactly its bytes) and for body/length/ETag agreement of every read; non-trivial = distinct schedule", nGated, nFree)
 	for _, kind := range c.kinds(impl.AllKinds) {
 		for i := 0; i < nGated; i++ {
 			c07Gated(c, kind, 2+c.Rng.Intn(3), 2+c.Rng.Intn(4))
@@ -505,7 +548,104 @@ func runC07(c *Ctx) {
 		for i := 0; i < 3; i++ {
 			c07Blocked(c, kind, i)
 		}
+		if kind == "mem" {
+			rounds := 2
+			if c.Thorough() {
+				rounds = 12
+			}
+			for i := 0; i < rounds; i++ {
+				c07Stress(c, 16, 1000)
+			}
+		}
 	}
+}
+
+// (D) contention: many clients upload small objects to two keys of a versioned memory bucket
+// through the Backend API (no HTTP in between, so the lock-free parts of PutObject really
+// overlap); every acknowledged upload must have its own version id and that id must read back
+// exactly its bytes, and the version listing must show them all.
+func c07Stress(c *Ctx, nClients, nPuts int) {
+	inst, err := impl.New("mem", c.Tmp)
+	if err != nil {
+		return
+	}
+	defer inst.Close()
+	vb, ok := inst.Backend.(gofakes3.VersionedBackend)
+	if !ok {
+		return
+	}
+	bucket := "stress"
+	if err := inst.Backend.CreateBucket(bucket); err != nil {
+		return
+	}
+	vb.SetVersioningConfiguration(bucket, gofakes3.VersioningConfiguration{Status: gofakes3.VersioningEnabled})
+	type ack struct{ key, vid, body string }
+	acks := make([][]ack, nClients)
+	var wg sync.WaitGroup
+	for cl := 0; cl < nClients; cl++ {
+		wg.Add(1)
+		go func(cl int) {
+			defer wg.Done()
+			defer func() { recover() }()
+			for j := 0; j < nPuts; j++ {
+				key := []string{"s1", "s2"}[(cl+j)%2]
+				body := fmt.Sprintf("c%d-%d", cl, j)
+				res, err := inst.Backend.PutObject(bucket, key, map[string]string{}, strings.NewReader(body), int64(len(body)))
+				if err == nil {
+					acks[cl] = append(acks[cl], ack{key, string(res.VersionID), body})
+				}
+			}
+		}(cl)
+	}
+	done := make(chan struct{})
+	go func() { wg.Wait(); close(done) }()
+	desc := []string{fmt.Sprintf("%d clients × %d PutObject calls on 2 keys of a versioned memory bucket (Backend API)", nClients, nPuts)}
+	select {
+	case <-done:
+	case <-time.After(60 * time.Second):
+		c.mismatch(Mismatch{Kind: "spec", Backend: "mem", Case: desc, Impl: "clients did not finish within 60 s", Spec: "no deadlock", Finger: "c07:stress:hang"})
+		return
+	}
+	seen := map[string]string{}
+	total := 0
+	for _, as := range acks {
+		for _, a := range as {
+			total++
+			c.R.Evaluations++
+			if a.vid == "" {
+				c.mismatch(Mismatch{Kind: "spec", Backend: "mem", Case: desc, Impl: "an acknowledged upload without a version id", Spec: "a fresh version id per upload", Finger: "c07:stress:version-ids"})
+				return
+			}
+			if other, dup := seen[a.vid]; dup {
+				c.mismatch(Mismatch{Kind: "spec", Backend: "mem", Case: desc, Impl: fmt.Sprintf("uploads %q and %q were both given version id %q", other, a.body, a.vid), Spec: "distinct version ids", Finger: "c07:stress:version-ids"})
+				return
+			}
+			seen[a.vid] = a.body
+		}
+	}
+	n := 0
+	for _, as := range acks {
+		for i, a := range as {
+			if i%5 != 0 {
+				continue
+			}
+			n++
+			obj, err := vb.GetObjectVersion(bucket, a.key, gofakes3.VersionID(a.vid), nil)
+			c.R.Evaluations++
+			got := ""
+			if err == nil {
+				b, _ := io.ReadAll(obj.Contents)
+				obj.Contents.Close()
+				got = string(b)
+			}
+			if err != nil || got != a.body {
+				c.mismatch(Mismatch{Kind: "spec", Backend: "mem", Case: desc, Impl: fmt.Sprintf("version %q of %s reads %q (err %v)", a.vid, a.key, trunc(got, 30), err), Spec: fmt.Sprintf("the bytes uploaded under that id: %q", a.body), Finger: "c07:stress:version-readback"})
+				return
+			}
+		}
+	}
+	c.nontrivial(fmt.Sprintf("stress|%d|%d", nClients, total))
+	c.hist("stress-rounds")
 }
 
 // (C) requests that must wait: CompleteMultipartUpload is parked inside the backend's PutObject
